@@ -194,12 +194,12 @@ def generate(tier, seed):
     for p1, p2 in [((1.0, 10.0), (1.0, 20.0)), ((1.0, 5.0), (5.0, 5.0)), ((0.0, 0.0), (3.0, 4.0)), ((2.5, -1.0), (-4.0, 7.5)),
                    ((1e5, 1e5), (1e5 + 3.0, 1e5 - 4.0)), ((1.0, 1.0), (-2.0, -3.0)),
                    ((2.0, 3.0), (2.0, 3.0)), ((0.0, 0.0), (0.0, 0.0)), ((-7.5, 1e4), (-7.5, 1e4))]:   # incl. coincident end points
-        for size in (2, 3, 5, 11):
+        for size in (1, 2, 3, 5, 11):
             cases.append(core.guarded(lambda: profile_case(vd, p1, p2, size, "profile"), {"fn": "profile_case"}, "profile_case"))
     for i in range(20 if tier == "quick" else 200):
         p1 = (rnd.uniform(-50, 50), rnd.uniform(-50, 50))
         p2 = (rnd.uniform(-50, 50), rnd.uniform(-50, 50))
-        cases.append(core.guarded(lambda: profile_case(vd, p1, p2, rnd.randint(2, 12), "profile-random"), {"fn": "profile_case"}, "profile_case"))
+        cases.append(core.guarded(lambda: profile_case(vd, p1, p2, rnd.randint(1, 12), "profile-random"), {"fn": "profile_case"}, "profile_case"))
     return cases
 
 
